@@ -521,6 +521,27 @@ class Interp:
             cache[key] = found
         return cache[key]
 
+    def _global_rebound(self, mod: str, attr: str) -> bool:
+        """Is the module-level name assigned again somewhere (a `global NAME` in a function of the module, or a second
+        module-level assignment)?"""
+        cache = self.__dict__.setdefault("_grebound_cache", {})
+        key = (mod, attr)
+        if key not in cache:
+            found = False
+            for fi in self.prog.functions.values():
+                if fi.module == mod and any(isinstance(n, ast.Global) and attr in n.names for n in ast.walk(fi.node)):
+                    found = True
+                    break
+            tree = getattr(self.prog.modules[mod], "tree", None)
+            if tree is not None and not found:
+                count = 0
+                for n in tree.body:
+                    tg = n.targets if isinstance(n, ast.Assign) else [n.target] if isinstance(n, (ast.AnnAssign, ast.AugAssign)) else []
+                    count += sum(1 for t in tg if isinstance(t, ast.Name) and t.id == attr)
+                found = count > 1
+            cache[key] = found
+        return cache[key]
+
     def _pure_memo(self, fi, attr) -> bool:
         """Is the module-level mapping ``attr`` nothing but the memo of ``fi``, a function of its key?  Decided by evaluating
         ``fi`` with the mapping unknown: no other function of the module mentions it, ``fi`` takes one parameter k, every
@@ -587,12 +608,16 @@ class Interp:
                         self.state.globals_objs[dotted] = self.alloc(HDict(sym=("global", dotted)))
                 return self.state.globals_objs[dotted]
             # module-level constants and simple aliases are evaluated in a scratch frame of that module
-            if isinstance(gnode, (ast.Constant, ast.Name, ast.Attribute, ast.List, ast.Tuple, ast.Dict, ast.Set)):
+            if isinstance(gnode, (ast.Constant, ast.Name, ast.Attribute, ast.List, ast.Tuple, ast.Dict, ast.Set)) \
+                    or (isinstance(gnode, ast.UnaryOp) and isinstance(gnode.operand, ast.Constant)):
                 self.state.frames.append(Frame(None, mod, None, fid=self.state.fresh("fid")))
                 try:
                     return self.eval(gnode)
                 finally:
                     self.state.frames.pop()
+            if isinstance(gnode, ast.Call) and isinstance(gnode.func, ast.Name) and gnode.func.id == "object" and not gnode.args and not gnode.keywords \
+                    and "object" not in self.prog.modules[mod].globals_ and not self._global_rebound(mod, attr):
+                return Sym(("sentinel", dotted))
             return Sym(("global", dotted))
         return ExtV(dotted)
 
@@ -949,6 +974,10 @@ class Interp:
                     return ("const", x >= y)
             except TypeError:
                 pass
+        # --- a module-level sentinel (NAME = object()): identical and equal to itself and to nothing else
+        for x, y in ((a, b), (b, a)):
+            if op in ("Eq", "Is") and isinstance(x, Sym) and isinstance(x.label, tuple) and x.label[:1] == ("sentinel",):
+                return ("const", isinstance(y, Sym) and y.label == x.label)
         # --- an integer against 0 is its truthiness, however it is written (int(bit) / int(bit) != 0 / int(bit) == 1 is not)
         for x, y in ((a, b), (b, a)):
             if op == "Eq" and isinstance(y, Const) and type(y.value) is int and y.value == 0 and isinstance(x, Sym) and isinstance(x.label, tuple) and x.label[:1] == ("int",):
@@ -1103,14 +1132,21 @@ class Interp:
                         return PFALSE  # nothing is a member of an empty collection
                     if isinstance(item, Const) and all(isinstance(x, Const) for x in o.values()):
                         return PFALSE
+                    if len(ds) == 1 and isinstance(item, ElemV) and isinstance(o.values()[0], ElemV):
+                        # membership in a one-element collection is equality with that element
+                        return self.compare_pos("Eq", item, o.values()[0], node)
                 coll = self.as_coll(container)
                 return ("in", desc(item), coll.var if coll is not None else self.list_desc(o))
         if isinstance(container, TupleV):
             ds = [desc(x) for x in container.items]
             if desc(item) in ds:
                 return PTRUE
+            if not ds:
+                return PFALSE
             if isinstance(item, Const) and all(isinstance(x, Const) for x in container.items):
                 return PFALSE
+            if len(ds) == 1 and isinstance(item, ElemV) and isinstance(container.items[0], ElemV):
+                return self.compare_pos("Eq", item, container.items[0], node)
         if isinstance(container, Const) and isinstance(item, Const):
             try:
                 return ("const", item.value in container.value)
@@ -1155,6 +1191,12 @@ class Interp:
                         return self.eval(expr)
                     finally:
                         self.state.frames.pop()
+                if self._record_fields(o.cls) is not None and attr in ("_asdict", "_replace", "_fields"):
+                    kind = self.__dict__.get("_record_kind", {}).get(o.cls)
+                    if kind == "namedtuple":
+                        if attr == "_fields":
+                            return TupleV(tuple(Const(nm) for nm, _ in self._record_fields(o.cls)))
+                        return Sym(("record-method", attr, v.oid), "callable")
                 if attr in ("copy", "update", "items", "keys", "values", "get", "pop", "setdefault"):
                     return MethV(v, attr)  # the object seen through its __dict__
                 self.log("attr.missing", node, obj=v, attr=attr, cls=o.cls)
@@ -1184,6 +1226,8 @@ class Interp:
                     self.state.frames.pop()
             if attr == "__name__":
                 return Const(v.qualname.rsplit(".", 1)[1])
+            if attr == "_fields" and self._record_fields(v.qualname) is not None and self.__dict__.get("_record_kind", {}).get(v.qualname) == "namedtuple":
+                return TupleV(tuple(Const(nm) for nm, _ in self._record_fields(v.qualname)))
             return Sym(("classattr", v.qualname, attr))
         if isinstance(v, ExtV):
             if v.name.startswith("module:"):
@@ -1336,6 +1380,8 @@ class Interp:
             return any(self.val_mentions(x, names) for x in o.entries.values()) or any(self.val_mentions(x, names) for x in o.each)
         if isinstance(o, HObj):
             return any(self.val_mentions(x, names) for x in o.attrs.values())
+        if isinstance(o, HWcnf):
+            return any(self.val_mentions(x, names) for x in o.hard) or any(self.val_mentions(x, names) for x in o.soft)
         return False
 
     def val_mentions(self, v, names):
@@ -1379,6 +1425,8 @@ class Interp:
             return d
         if isinstance(o, HObj):
             return HObj(o.cls, {k: self.inst(v, mapping) for k, v in o.attrs.items()})
+        if isinstance(o, HWcnf):
+            return HWcnf([F.subst_any(i, mapping) for i in o.hard], [F.subst_any(i, mapping) for i in o.soft])
         return o.clone()
 
     def list_index(self, ref, o: HList, idx, node):
@@ -1562,12 +1610,15 @@ class Interp:
             # a generator of the repository handed to enumerate / list / sorted / a comprehension ...: what it yields is
             # collected here (a yield inside a loop over a family becomes one entry per member, like an append would)
             acc = self.alloc(HList())
+            wrap = self._gen_wrapper(v)
 
             def on_yield(value, acc=acc):
-                M.list_method(self, acc, self.deref(acc), "append", [value], {}, node)
+                M.list_method(self, acc, self.deref(acc), "append", [wrap(value)], {}, node)
                 return Const(None)
 
             def on_extend(segs, acc=acc):
+                if v.wrap:
+                    self.err(node, "yield from a sequence of unknown length inside enumerate()")
                 M.list_method(self, acc, self.deref(acc), "extend", [self.alloc(HList(list(segs)))], {}, node)
 
             on_yield.extend = on_extend
@@ -1942,6 +1993,16 @@ class Interp:
             return M.call_external(self, fv, args, kwargs, node)
         if isinstance(fv, LambdaV):
             return self.call_lambda(fv, args, kwargs, node)
+        if isinstance(fv, Sym) and isinstance(fv.label, tuple) and fv.label[:1] == ("partial",):
+            return self.call(fv.label[1], list(fv.label[2]) + list(args), {**dict(fv.label[3]), **kwargs}, node)
+        if isinstance(fv, Sym) and isinstance(fv.label, tuple) and fv.label[:1] == ("record-method",):
+            o = self.state.heap[fv.label[2]]
+            fields = [nm for nm, _ in self._record_fields(o.cls)]
+            if fv.label[1] == "_asdict" and not args and not kwargs:
+                return self.alloc(HDict(entries={nm: o.attrs.get(nm, Const(None)) for nm in fields}))
+            if fv.label[1] == "_replace" and not args and all(k in fields for k in kwargs):
+                return self.alloc(HObj(o.cls, {**o.attrs, **kwargs}))
+            self.err(node, f"{fv.label[1]} of a named tuple with these arguments")
         if isinstance(fv, Sym) and isinstance(fv.label, tuple) and fv.label[:1] in (("itemgetter",), ("attrgetter",), ("methodcaller",)) and len(args) == 1:
             return M.call_operator_object(self, fv, args, kwargs, node)
         if isinstance(fv, Sym):
@@ -1985,14 +2046,26 @@ class Interp:
         hid = self.__dict__.get("_lambda_home", {}).get((id(lam), lv.frame_id))
         if hid is not None and 0 <= lv.frame_id < len(self.state.frames) and self.state.frames[lv.frame_id].fid == hid:
             home = lv.frame_id  # called from somewhere below the function that wrote it (a callback handed to a helper)
+        elif isinstance(lam, ast.FunctionDef):
+            self.err(node, f"the nested function {lam.name} is called after the call that defined it has returned")
         hf = self.state.frames[home]
         fr = Frame(hf.func, hf.module, hf.cls, fid=self.state.fresh("fid"), closure=home, is_comp=True)
         self.bind_params(lam.args, args, kwargs, fr, node, lam)
         self.state.frames.append(fr)
+        depth = len(self.state.frames)
         try:
+            if isinstance(lam, ast.FunctionDef):
+                self.log("enter", node, func=f"{hf.func.qualname if hf.func else '?'}.<locals>.{lam.name}", args=tuple(args), kwargs=dict(kwargs))
+                try:
+                    self.exec_block(lam.body)
+                    rv = Const(None)
+                except ReturnSig as r:
+                    rv = r.value
+                self.log("leave", node, func=f"{hf.func.qualname if hf.func else '?'}.<locals>.{lam.name}", value=rv)
+                return rv
             return self.eval(lam.body)
         finally:
-            self.state.frames.pop()
+            del self.state.frames[depth - 1:]
 
     def bind_params(self, a: ast.arguments, args, kwargs, fr: Frame, node, fnode):
         params = [p.arg for p in a.posonlyargs + a.args]
@@ -2433,17 +2506,38 @@ class Interp:
             cache[fi.qualname] = found
         return cache[fi.qualname]
 
+    def _gen_wrapper(self, gen):
+        """What the lazy wrappers around a generator (enumerate) make of the values it yields, one after the other."""
+        counters = [0] * len(gen.wrap)
+
+        def wrap(value):
+            for i, w in enumerate(gen.wrap):
+                if w[0] == "enumerate":
+                    sl = self.as_lin(w[1])
+                    if self.unroll_while and sl is not None:
+                        pos = LinV(F.lin_add(sl.lin, F.lin_const(counters[i])))
+                        if F.lin_is_const(pos.lin):
+                            pos = Const(pos.lin[1])
+                    else:
+                        pos = Sym(("position", self.fresh_id("n")), "int")  # (a yield in a loop run once for all rounds)
+                    counters[i] += 1
+                    value = TupleV((pos, value))
+            return value
+
+        return wrap
+
     def _for_over_generator(self, node, gen):
         """for x in g(...): BODY with g a generator function of the repository: the body runs at every yield (clauses the
         body adds are seen by the generator's next step); break / return / an exception in the body close the generator
         (its finally blocks run, its except clauses do not see them)."""
         caller = self.frame
         pending = []
+        wrap = self._gen_wrapper(gen)
 
         def on_yield(value):
             self.state.frames.append(caller)
             try:
-                self.assign(node.target, value)
+                self.assign(node.target, wrap(value))
                 try:
                     self.exec_block(node.body)
                 except ContinueSig:
@@ -2469,6 +2563,23 @@ class Interp:
         it = self.eval(node.iter)
         if isinstance(it, GenV):
             return self._for_over_generator(node, it)
+        if isinstance(it, Ref) and isinstance(self.deref(it), HOpaque) and self.deref(it).typ == "count":
+            # for n in itertools.count(a, s): an endless loop with a counter - run as  while True: n = a, a+s, ...
+            c = self.deref(it)
+            cache = self.__dict__.setdefault("_count_loops", {})
+            if id(node) not in cache:
+                hid = f"__count_{node.lineno}_{node.col_offset}"
+                step = ast.AugAssign(target=ast.Name(id=hid, ctx=ast.Store()), op=ast.Add(), value=ast.Name(id=hid + "_step", ctx=ast.Load()))
+                bind = ast.Assign(targets=[node.target], value=ast.Name(id=hid, ctx=ast.Load()))
+                w = ast.While(test=ast.Constant(value=True), body=[step, bind] + list(node.body), orelse=[])
+                for n_ in (step, bind, w):
+                    ast.copy_location(n_, node)
+                    ast.fix_missing_locations(n_)
+                cache[id(node)] = (hid, w)
+            hid, w = cache[id(node)]
+            self.frame.env[hid + "_step"] = c.attrs["step"]
+            self.frame.env[hid] = self.binop("Sub", c.attrs["start"], c.attrs["step"], node)
+            return self.exec_While(w)
 
         def body():
             self.exec_block(node.body)
@@ -2632,6 +2743,9 @@ class Interp:
                 items = list(v.items)
             elif isinstance(v, Ref) and isinstance(self.deref(v), HList) and self.deref(v).concrete() and not self.deref(v).is_set:
                 items = self.deref(v).values()
+            elif isinstance(v, Ref) and isinstance(self.deref(v), HObj) and self._record_fields(self.deref(v).cls) is not None \
+                    and self.__dict__.get("_record_kind", {}).get(self.deref(v).cls) == "namedtuple":
+                items = [self.deref(v).attrs.get(nm, Const(None)) for nm, _ in self._record_fields(self.deref(v).cls)]
             if items is None:
                 self.err(node, "sequence pattern on a value that is not a concrete sequence")
             if any(isinstance(p_, ast.MatchStar) for p_ in pat.patterns):
@@ -2754,8 +2868,21 @@ class Interp:
         return False
 
     def exec_FunctionDef(self, node):
-        # nested function definitions are rare; bind an opaque callable
-        self.frame.env[node.name] = Sym(("localfunc", node.name))
+        # a nested function: a closure over the frame it is written in (called like a lambda with statements); generators,
+        # decorated ones and ones that rebind outer names stay opaque callables
+        plain = not node.decorator_list
+        todo = list(node.body)
+        while todo and plain:
+            n = todo.pop()
+            if isinstance(n, (ast.Yield, ast.YieldFrom, ast.Nonlocal, ast.Global, ast.Await)):
+                plain = False
+            elif not isinstance(n, (ast.FunctionDef, ast.AsyncFunctionDef, ast.Lambda, ast.ClassDef)):
+                todo.extend(ast.iter_child_nodes(n))
+        if not plain:
+            self.frame.env[node.name] = Sym(("localfunc", node.name))
+            return
+        self.__dict__.setdefault("_lambda_home", {})[(id(node), len(self.state.frames) - 1)] = self.frame.fid
+        self.frame.env[node.name] = LambdaV(node, len(self.state.frames) - 1)
 
     def exec_ClassDef(self, node):
         self.frame.env[node.name] = Sym(("localclass", node.name))
